@@ -82,6 +82,9 @@ impl S {
                         AlterOpt::ModifyColumn(c) => {
                             al.modify_column(c.column_def());
                         }
+                        AlterOpt::ModifyNoType(c) => {
+                            al.modify_column(c.column_def_opt(false));
+                        }
                         AlterOpt::RenameColumn(f, t) => {
                             al.rename_column(a(f), a(t));
                         }
@@ -481,7 +484,17 @@ fn random_stmt(rng: &mut Rng, d: Dialect) -> S {
             for i in 0..k {
                 opts.push(match rng.below(6) {
                     0 => AlterOpt::AddColumn(random_col(rng, d, &format!("n{i}")), rng.coin()),
-                    1 | 2 => AlterOpt::ModifyColumn(random_col(rng, d, &format!("c{i}"))),
+                    1 => AlterOpt::ModifyColumn(random_col(rng, d, &format!("c{i}"))),
+                    2 => {
+                        let mut c = random_col(rng, d, &format!("c{i}"));
+                        c.specs.retain(|s| !matches!(s, CS::Generated(..)));
+                        // Postgres: specifications only; an action list must not be empty
+                        if d == Dialect::Postgres && c.specs.iter().any(|s| matches!(s, CS::Null | CS::NotNull | CS::Default(_) | CS::Unique | CS::PrimaryKey | CS::Check(_))) {
+                            AlterOpt::ModifyNoType(c)
+                        } else {
+                            AlterOpt::ModifyColumn(c)
+                        }
+                    }
                     3 => AlterOpt::RenameColumn(format!("c{i}"), format!("r{i}")),
                     4 => AlterOpt::DropColumn(format!("c{i}")),
                     _ => {
@@ -556,7 +569,10 @@ pub fn check(ctx: &Ctx, rep: &mut Report) {
                     let t = Tbl { name: "tb".into(), cols: vec![col.clone()], ..Default::default() };
                     check_stmt(ctx, rep, n, d, &S::Create(t), "exhaustive");
                     if n % 3 == 0 {
-                        check_stmt(ctx, rep, n, d, &S::Alter("tb".into(), vec![AlterOpt::ModifyColumn(col)]), "exhaustive");
+                        check_stmt(ctx, rep, n, d, &S::Alter("tb".into(), vec![AlterOpt::ModifyColumn(col.clone())]), "exhaustive");
+                    }
+                    if d == Dialect::Postgres && n % 3 == 1 && col.specs.iter().any(|s| matches!(s, CS::Null | CS::NotNull | CS::Default(_) | CS::Unique | CS::PrimaryKey | CS::Check(_))) {
+                        check_stmt(ctx, rep, n, d, &S::Alter("tb".into(), vec![AlterOpt::ModifyNoType(col)]), "exhaustive");
                     }
                 }
                 n += 1;
